@@ -314,3 +314,183 @@ def gen_dspell(rng, d, plain=False):
 def no_dcolon_legal(sp, d):
     """without "::" the type spec must be separated from the name: always write "::" after a bare star form"""
     return True
+
+
+# ------------------------------------------------------------------ program units (twin of DeclSpec.render_unit)
+PLAIN_T = dict(case=[], kcase=[], form=0, b1=0, b2=0, b3=0, bstar=0, dbl=1)
+PLAIN_D = dict(type=PLAIN_T, dcolon=True, dimattr=False, acase=[], ablank=0, inout_blank=False, sep=1)
+UNIT_WORD = {"module": "module", "subroutine": "subroutine", "function": "function"}
+PROC_KEYWORDS = ["impure", "pure", "elemental", "non_recursive", "recursive", "module"]
+
+
+def nth_or_last(l, n, d):
+    if not l:
+        return d
+    return l[n] if n < len(l) else l[-1]
+
+
+def nth(l, n, d):
+    return l[n] if n < len(l) else d
+
+
+def render_header(sp, u):
+    kw = lambda w: recase(sp["kwcase"], w)   # noqa
+    b = " " * sp["argblank"]
+    if u["kind"] == "module":
+        return kw("module") + " " + u["name"]
+    out = "".join(kw(p) + " " for p in u["prefix"])
+    if u["rettype"] is not None:
+        out += render_type(sp["rettype"], u["rettype"]) + " "
+    out += kw(UNIT_WORD[u["kind"]]) + " " + u["name"] + "(" + ",".join(b + a + b for a in u["args"]) + ")"
+    if u["result"] is not None:
+        out += " " + kw("result") + "(" + u["result"] + ")"
+    return out
+
+
+def render_end(sp, u):
+    return recase(sp["kwcase"], "end") + " " + recase(sp["kwcase"], UNIT_WORD[u["kind"]]) + " " + u["name"]
+
+
+def has_dims(d):
+    return any(e["dim"] is not None for e in d["entities"])
+
+
+def strip_decl(stmt, dimstmt, d):
+    ents = [dict(name=e["name"], dim=None if dimstmt else e["dim"], points=e["points"],
+                 init=None if (stmt and d["parameter"]) else e["init"]) for e in d["entities"]]
+    if stmt:
+        return dict(type=d["type"], parameter=False, intent=None, optional=False, attrs=[], entities=ents)
+    return dict(type=d["type"], parameter=d["parameter"], intent=d["intent"], optional=d["optional"],
+                attrs=d["attrs"], entities=ents)
+
+
+def attr_statements(sp, dsp, d):
+    sep = " :: " if sp["stmt_dcolon"] else " "
+    names = ", ".join(e["name"] for e in d["entities"])
+    a = dsp["acase"]
+    out = []
+    if d["parameter"]:
+        out.append(recase(a, "parameter") + " (" + ", ".join(
+            e["name"] + " = " + (" " * dsp["sep"]).join(token_text(t) for t in (e["init"] or []))
+            for e in d["entities"]) + ")")
+    if d["intent"] is not None:
+        out.append(render_intent(dsp, d["intent"]) + sep + names)
+    if d["optional"]:
+        out.append(recase(a, "optional") + sep + names)
+    out += [recase(a, x) + sep + names for x in d["attrs"]]
+    return out
+
+
+def dim_statement(sp, dsp, d):
+    if not has_dims(d):
+        return []
+    sep = " :: " if sp["stmt_dcolon"] else " "
+    return [recase(dsp["acase"], "dimension") + sep + ", ".join(e["name"] + e["dim"] for e in d["entities"] if e["dim"] is not None)]
+
+
+def render_body(sp, decls):
+    out = []
+    for i, d in enumerate(decls):
+        dsp = nth_or_last(sp["decls"], i, PLAIN_D)
+        stmt = nth(sp["stmt"], i, False)
+        dimstmt = nth(sp["dimstmt"], i, False) and has_dims(d)
+        out.append(render_decl(dsp, strip_decl(stmt, dimstmt, d)))
+        if dimstmt:
+            out += dim_statement(sp, dsp, d)
+        if stmt:
+            out += attr_statements(sp, dsp, d)
+    return out
+
+
+def unit_coq(u):
+    kind = {"module": "UModule", "subroutine": "USubroutine", "function": "UFunction"}[u["kind"]]
+    rt = "None" if u["rettype"] is None else f"(Some {atype_coq(u['rettype'])})"
+    return (f"(mkau {kind} {cstr(u['name'])} {cstrs(u['prefix'])} {cstrs(u['args'])} {copt(u['result'])} {rt} "
+            f"{coq_list(decl_coq(d) for d in u['decls'])})")
+
+
+def uspell_coq(sp):
+    return (f"(mkus {bools(sp['kwcase'])} {coq_list(dspell_coq(x) for x in sp['decls'])} {bools(sp['stmt'])} "
+            f"{bools(sp['dimstmt'])} {coq_bool(sp['stmt_dcolon'])} {tspell_coq(sp['rettype'])} {sp['argblank']})")
+
+
+def header_coq(kind, groups):
+    k = {"module": "UModule", "subroutine": "USubroutine", "function": "UFunction"}[kind]
+    return (f"(mkhdr {k} {copt(groups.get('attributes'))} {cstr(groups.get('name') or '')} "
+            f"{copt(groups.get('arguments'))} {copt(groups.get('result'))})")
+
+
+def gen_unit(rng):
+    kind = rng.choice(["module", "subroutine", "subroutine", "function", "function", "function"])
+    name = rng.choice(["calc", "do_it", "Solve", "f", "area", "mod_a", "init_x"])
+    u = dict(kind=kind, name=name, prefix=[], args=[], result=None, rettype=None, decls=[])
+    pool = [n for n in NAMES if n.lower() != name.lower()]
+    rng.shuffle(pool)
+    if kind == "module":
+        for _ in range(rng.choice([1, 2, 3])):
+            k = rng.choice([1, 1, 2])
+            names, pool = pool[:k], pool[k:]
+            if not names:
+                break
+            d = gen_decl(rng, names=names)
+            d["entities"] = d["entities"][:len(names)]
+            u["decls"].append(d)
+        return u
+    if rng.random() < 0.4:
+        u["prefix"] = rng.sample(["pure", "elemental", "recursive", "impure", "module"], rng.choice([1, 1, 2]))
+        if "pure" in u["prefix"] and "impure" in u["prefix"]:
+            u["prefix"].remove("impure")
+    nargs = rng.choice([0, 1, 2, 3])
+    u["args"], pool = pool[:nargs], pool[nargs:]
+    declared_args = [a for a in u["args"] if rng.random() < 0.8]
+    rng.shuffle(declared_args)
+    for a in declared_args:
+        d = gen_decl(rng, allow_intent=True, names=[a])
+        d["entities"] = d["entities"][:1]
+        d["parameter"] = False
+        for e in d["entities"]:
+            if not e["points"]:
+                e["init"] = None
+        u["decls"].append(d)
+    if kind == "function":
+        if rng.random() < 0.4:
+            u["result"] = pool.pop() if pool else "res"
+        r = rng.random()
+        rname = u["result"] or name
+        if r < 0.45:
+            t = gen_type(rng)
+            u["rettype"] = t
+        elif r < 0.8:
+            d = gen_decl(rng, names=[rname])
+            d["entities"] = d["entities"][:1]
+            d["parameter"] = False
+            d["entities"][0]["init"] = None
+            d["entities"][0]["points"] = False
+            u["decls"].insert(rng.randrange(len(u["decls"]) + 1), d)
+    for _ in range(rng.choice([0, 1, 2])):
+        k = rng.choice([1, 2])
+        names, pool = pool[:k], pool[k:]
+        if not names:
+            break
+        d = gen_decl(rng, names=names)
+        d["entities"] = d["entities"][:len(names)]
+        u["decls"].append(d)
+    return u
+
+
+def gen_uspell(rng, u, plain=False):
+    n = max(1, len(u["decls"]))
+    if plain:
+        return dict(kwcase=[], decls=[gen_dspell(rng, d, plain=True) for d in u["decls"]] or [PLAIN_D], stmt=[False] * n,
+                    dimstmt=[False] * n, stmt_dcolon=False, rettype=dict(PLAIN_T), argblank=0)
+    rt = gen_tspell(rng)
+    if u["rettype"] is not None:
+        for _ in range(20):
+            if type_form_ok(rt, u["rettype"]):
+                break
+            rt = gen_tspell(rng)
+        else:
+            rt["form"] = 0
+    return dict(kwcase=gen_mask(rng, 12), decls=[gen_dspell(rng, d) for d in u["decls"]] or [PLAIN_D],
+                stmt=[rng.random() < 0.35 for _ in range(n)], dimstmt=[rng.random() < 0.2 for _ in range(n)],
+                stmt_dcolon=rng.random() < 0.5, rettype=rt, argblank=rng.choice([0, 0, 1]))
